@@ -198,7 +198,12 @@ def run_case(case, rec):
                 else:
                     rec.classify('exercised: ' + name)
                     exercised.add(name)
-                wellformed(rec, G, 'after ' + ctx + (' -> ok' if ok else ' -> %s' % type(val).__name__))
+                # one immediate check in three is left out: the graph is then looked at only later (after more
+                # calls, or at the end of the program), which is how stale caches behind a call show up
+                if seed % 3:
+                    wellformed(rec, G, 'after ' + ctx + (' -> ok' if ok else ' -> %s' % type(val).__name__))
+                else:
+                    rec.classify('deferred check after ' + name)
                 if name in BLOCKED and name != 'update':
                     rec.check('C19.blocked.raises', (not ok) and isinstance(val, nx.NetworkXNotImplemented),
                               lambda: '%s returned/raised %r instead of NetworkXNotImplemented' % (ctx, val))
